@@ -1,4 +1,4 @@
-package prim
+package kdf
 
 import (
 	"bytes"
